@@ -141,7 +141,13 @@ func (n *nodeSim) onSendInvoked(rec *sendRec) {
 	dp := tr.dstPeer(n)
 	// lifetime: never transmitted after the end of its lifetime (C06, App. A.9)
 	if n.expired(tr, time.Millisecond) {
-		n.res.Violate("C06", "no-send-after-expiry", "sent-after-lifetime-end", "%s handed to p%d %v after its lifetime ended", rec.tag, rec.peer, time.Since(tr.expiry))
+		sig := "sent-after-lifetime-end"
+		if tr.via == "deliver" && tr.bundle.PrimaryBlock.CreationTimestamp.IsZeroTime() && !n.sentInEpoch(tr, tr.epochAcc) && (n.algo == "epidemic" || n.algo == "sensor-mule") {
+			// consequence of the recorded finding: the waiting time before the first forward is not
+			// counted, so a clock-less bundle does not age while it waits
+			sig = "bundle-age-misses-waiting-time-before-first-forward/" + n.algo
+		}
+		n.res.Violate("C06", "no-send-after-expiry", sig, "%s handed to p%d %v after its lifetime ended", rec.tag, rec.peer, time.Since(tr.expiry))
 	}
 	if tr.refused == "hop-limit" {
 		n.res.Violate("C06", "hop-limit", "sent-although-hop-limit-exceeded", "%s (count %d, limit %d) handed to p%d", rec.tag, tr.spec.HopCount, tr.spec.HopLimit, rec.peer)
@@ -489,10 +495,11 @@ func (n *nodeSim) finale() {
 				eligible = true
 			}
 		}
-		if tr.refused == "hop-limit" && eligible && !tr.localDst && (pend || (byID && tr.via == "deliver")) {
+		if tr.refused == "hop-limit" && eligible && n.live(tr) && !tr.localDst && (pend || (byID && tr.via == "deliver")) {
 			n.res.Violate("C06", "refused-dropped", "hop-limit-exceeded-bundle-kept", "%s (count %d, limit %d) is still in the store after a fault-free retry interval with a connected peer", tr.spec.Tag, tr.spec.HopCount, tr.spec.HopLimit)
 		}
-		if n.expired(tr, 11*time.Minute) && (pend || (byID && tr.via == "deliver")) {
+		// the cleaning job runs 10 minutes after the (re)start of the node and every 10 minutes from then on
+		if n.expired(tr, 11*time.Minute) && time.Since(n.coreStart) > 10*time.Minute+30*time.Second && (pend || (byID && tr.via == "deliver")) {
 			n.res.Violate("C06", "expired-dropped", "expired-bundle-kept-past-cleaning", "%s expired %v ago and is still in the store", tr.spec.Tag, time.Since(tr.expiry))
 		}
 		if tr.reportedDeleted && (pend || (byID && tr.via == "deliver")) && tr.reinjected == 0 {
